@@ -128,7 +128,11 @@ impl GenerationPass for AvailableValuePass {
                 // would start from "nothing is known" instead of from the optimistic
                 // assumption, and around a loop that runs against the program order such a
                 // start value chases the real one forever.
-                if !node.prevs().is_empty() && !node.prevs().iter().any(|x| visited.contains(x)) {
+                // (entries are entered by calls, which are not edges: they never wait)
+                if !node.is_any_entry()
+                    && !node.prevs().is_empty()
+                    && !node.prevs().iter().any(|x| visited.contains(x))
+                {
                     continue;
                 }
 
